@@ -118,7 +118,7 @@ Fixpoint sprod (acc : value) (vs : list value) : option value :=
       match acc, v with
       | VInt x, VInt y => sprod (VInt (x * y)) vs'
       | _, _ => match num8 acc, num8 v with
-                | Some x, Some y => if (x * y) mod 64 =?? 0 then sprod (VDbl ((x * y) / 64)) vs' else None
+                | Some x, Some y => if (x * y) mod 8 =?? 0 then sprod (VDbl ((x * y) / 8)) vs' else None
                 | _, _ => None
                 end
       end
@@ -251,6 +251,9 @@ Fixpoint seval (vars : svars) (doc : value) (e : value) {struct e} : sres :=
           else if (k =? "$add") || (k =? "$multiply") then
             (if existsb is_sundef args then SUndef
              else if existsb is_serr args then SUndef
+             else if match args with [] => true | _ => false end then SUndef
+             else if negb (forallb (fun r => nullish r || match r with SV v => is_num v | _ => false end) args)
+                  then SUndef                                  (* an operand that is not a number *)
              else if existsb nullish args then SV VNull
              else match svalues args with
                   | Some vs =>
@@ -262,6 +265,39 @@ Fixpoint seval (vars : svars) (doc : value) (e : value) {struct e} : sres :=
                            end
                   | None => SUndef
                   end)
+          else if (k =? "$ceil") || (k =? "$floor") || (k =? "$trunc") then
+            (if is_sundef one then SUndef else if nullish one then SV VNull else
+             match one with
+             | SV (VInt z) => SV (VInt z)
+             | SV (VDbl z) => SV (VInt (if k =? "$floor" then z / 8
+                                        else if k =? "$ceil" then - ((- z) / 8) else Z.quot z 8))
+             | _ => SUndef
+             end)
+          else if (k =? "$divide") || (k =? "$mod") then
+            match arg with
+            | VArr [_; _] =>
+                match args with
+                | [a; b] =>
+                    if is_sundef a || is_sundef b || is_serr a || is_serr b then SUndef
+                    else if negb (forallb (fun r => nullish r || match r with SV v => is_num v | _ => false end) [a; b])
+                    then SUndef
+                    else if nullish a || nullish b then SV VNull
+                    else match a, b with
+                         | SV x, SV y =>
+                             match num8 x, num8 y with
+                             | Some p, Some q =>
+                                 if q =?? 0 then SErr
+                                 else if k =? "$divide" then
+                                   (if (8 * p) mod q =?? 0 then SV (VDbl ((8 * p) / q)) else SUndef)
+                                 else SV (VDbl (Z.rem p q))     (* the remainder has the sign of the dividend *)
+                             | _, _ => SUndef
+                             end
+                         | _, _ => SUndef
+                         end
+                | _ => SUndef
+                end
+            | _ => SUndef
+            end
           else if k =? "$subtract" then
             match arg with
             | VArr [_; _] =>
@@ -287,7 +323,7 @@ Fixpoint seval (vars : svars) (doc : value) (e : value) {struct e} : sres :=
                          end
                 | _ => SUndef
                 end
-            | _ => SErr
+            | _ => SUndef
             end
           else if (k =? "$eq") || (k =? "$ne") || (k =? "$gt") || (k =? "$gte") || (k =? "$lt") || (k =? "$lte") then
             match arg with
@@ -304,7 +340,7 @@ Fixpoint seval (vars : svars) (doc : value) (e : value) {struct e} : sres :=
                          end
                 | _ => SUndef
                 end
-            | _ => SErr
+            | _ => SUndef
             end
           else if (k =? "$and") || (k =? "$or") then
             match arg with
@@ -333,18 +369,18 @@ Fixpoint seval (vars : svars) (doc : value) (e : value) {struct e} : sres :=
                 | Some false => seval vars doc f
                 | None => SUndef
                 end
-            | VArr _ => SErr
+            | VArr _ => SUndef
             | VDoc cf =>
                 let tbl := map (fun kv : string * value =>
                                   match kv with (ck, cv) => (ck, seval vars doc cv) end) cf in
                 if negb (forallb (fun kv => (fst kv =? "if") || (fst kv =? "then") || (fst kv =? "else")) cf)
-                then SErr else
+                then SUndef else
                 match assoc "if" tbl, assoc "then" tbl, assoc "else" tbl with
                 | Some c, Some t, Some f =>
                     match mtruth c with Some true => t | Some false => f | None => SUndef end
-                | _, _, _ => SErr
+                | _, _, _ => SUndef
                 end
-            | _ => SErr
+            | _ => SUndef
             end
           else if k =? "$ifNull" then
             match arg with
@@ -356,7 +392,7 @@ Fixpoint seval (vars : svars) (doc : value) (e : value) {struct e} : sres :=
                    | r :: l' => if is_sundef r || is_serr r then SUndef
                                 else if nullish r then go l' else r
                    end) args
-            | _ => SErr
+            | _ => SUndef
             end
           else if k =? "$switch" then
             match arg with
@@ -402,7 +438,7 @@ Fixpoint seval (vars : svars) (doc : value) (e : value) {struct e} : sres :=
                            end
                        end) bs
                 end
-            | _ => SErr
+            | _ => SUndef
             end
           else if k =? "$let" then
             match arg with
@@ -432,7 +468,7 @@ Fixpoint seval (vars : svars) (doc : value) (e : value) {struct e} : sres :=
                     else b (vars ++ bound)
                 | _, _ => SErr
                 end
-            | _ => SErr
+            | _ => SUndef
             end
           else if (k =? "$map") || (k =? "$filter") then
             match arg with
@@ -480,7 +516,7 @@ Fixpoint seval (vars : svars) (doc : value) (e : value) {struct e} : sres :=
                 | None, _, _ | _, None, _ => SErr
                 | _, _, None => SUndef
                 end
-            | _ => SErr
+            | _ => SUndef
             end
           else if k =? "$concat" then
             match arg with
@@ -512,7 +548,7 @@ Fixpoint seval (vars : svars) (doc : value) (e : value) {struct e} : sres :=
                               | Eq => 0 | Lt => -1 | Gt => 1 end))
                 | _ => SUndef
                 end
-            | _ => SErr
+            | _ => SUndef
             end
           else if k =? "$substr" then
             match arg with
@@ -529,13 +565,13 @@ Fixpoint seval (vars : svars) (doc : value) (e : value) {struct e} : sres :=
                     end
                 | _ => SUndef
                 end
-            | _ => SErr
+            | _ => SUndef
             end
           else if k =? "$size" then
             match one with
             | SV (VArr xs) => SV (VInt (Z.of_nat (List.length xs)))
             | SUndef => SUndef
-            | _ => SErr
+            | _ => SUndef
             end
           else if k =? "$arrayElemAt" then
             match arg with
@@ -555,7 +591,7 @@ Fixpoint seval (vars : svars) (doc : value) (e : value) {struct e} : sres :=
                          end
                 | _ => SUndef
                 end
-            | _ => SErr
+            | _ => SUndef
             end
           else if k =? "$concatArrays" then
             (if existsb is_sundef args || existsb is_serr args then SUndef
@@ -591,7 +627,7 @@ Fixpoint seval (vars : svars) (doc : value) (e : value) {struct e} : sres :=
                     end
                 | _ => SUndef
                 end
-            | _ => SErr
+            | _ => SUndef
             end
           else if k =? "$isArray" then
             match one with
@@ -613,7 +649,7 @@ Fixpoint seval (vars : svars) (doc : value) (e : value) {struct e} : sres :=
                 | [SV _; SV _] | [SV _; SMiss] => SErr
                 | _ => SUndef
                 end
-            | _ => SErr
+            | _ => SUndef
             end
           else if k =? "$setEquals" then
             match arg with
@@ -633,6 +669,7 @@ Fixpoint seval (vars : svars) (doc : value) (e : value) {struct e} : sres :=
             end
           else if (k =? "$sum") || (k =? "$avg") || (k =? "$min") || (k =? "$max") then
             match arg with
+            | VArr [_] => SUndef      (* one operand in array form: traversed or not - left open *)
             | VArr (_ :: _ :: _) | VArr [] =>
                 if existsb is_sundef args || existsb is_serr args then SUndef
                 else match svalues (map or_null args) with
